@@ -1,5 +1,8 @@
 //! compatible with std::sync::condvar except for both thread and coroutine
 //! please ref the doc from std::sync::condvar
+#[cfg(may_verif)]
+use crate::verif::SegQueue;
+#[cfg(not(may_verif))]
 use crossbeam::queue::SegQueue;
 
 #[cfg(may_verif)]
